@@ -24,6 +24,11 @@ var repForms = []struct{ name, src, want string }{
 	{"break overridden by continue", `f := func() { m := 0; for i := 0; i < N; i++ { try { break } finally { m++; continue } }; return ["done", m] }; return f()`, `["done", N]`},
 	{"return from a catch block overridden by continue", `f := func() { m := 0; for i := 0; i < N; i++ { try { throw "x" } catch e { return i } finally { m++; continue } }; return ["done", m] }; return f()`, `["done", N]`},
 	{"return value of a call overridden by continue", `g := func(a, b) { return a + b }; f := func() { m := 0; for i := 0; i < N; i++ { try { return g(i, i) } finally { m++; continue } }; return ["done", m] }; return f()`, `["done", N]`},
+	// the jumping finally belongs to a try statement inside a loop inside the finally block of ANOTHER try statement whose
+	// own outcome is pending: that outcome is not the jump's to drop
+	{"pending return of an enclosing try survives jumps of inner finally blocks", `f := func() { m := 0; try { return ["outer", N] } finally { for i := 0; i < N; i++ { try { m++ } finally { continue } } } }; return f()`, `["outer", N]`},
+	{"pending return survives an inner return overridden by continue", `f := func() { try { return ["outer", N] } finally { for i := 0; i < N; i++ { try { return "inner" } finally { continue } } } }; return f()`, `["outer", N]`},
+	{"pending error of an enclosing try survives jumps of inner finally blocks", `f := func() { m := 0; try { try { throw "boom" } finally { for i := 0; i < N; i++ { try { m++ } finally { break } } } } catch e { return ["done", m * N] } }; return f()`, `["done", N]`},
 	{"nothing overridden (control)", `f := func() { m := 0; for i := 0; i < N; i++ { try { m++ } finally { m++ } }; return ["done", m] }; return f()`, `["done", 2N]`},
 }
 
